@@ -116,6 +116,7 @@ impl Lock<'_> {
                 // e.g. std's default write_fmt panics when a Display impl fails although the
                 // stream did not; a pass-through stream forwards to it and inherits that
                 self.stats.probe("both_sides_panicked_identically");
+                self.failed_all = true;
                 return Ok(());
             }
             let std_fmt_panic = |r: &OpResult| matches!(r, OpResult::Panic(m) if m.contains("formatting trait implementation returned an error"));
@@ -123,6 +124,7 @@ impl Lock<'_> {
                 // one side reports the failing Display as Err, the other delegates to std's
                 // write_fmt, which panics for it: both are "the formatted write failed"
                 self.stats.probe("failing_display_err_vs_std_panic");
+                self.failed_all = true;
                 return Ok(());
             }
             if let OpResult::Panic(m) = &ra {
@@ -351,7 +353,8 @@ pub fn execute(t: &Trace, stats: &mut Stats, record: bool) -> Outcome {
                     got = store;
                 }
                 result?;
-                if got != ref_vec {
+                // (after a failed write_all / write! the amount written is unspecified)
+                if !lk.failed_all && got != ref_vec {
                     return Err(viol(
                         "bytes-mismatch",
                         format!("writer returned by into_inner holds {:?} but the reference delivered {:?}", lossy(&got), lossy(&ref_vec)),
@@ -392,7 +395,8 @@ pub fn execute(t: &Trace, stats: &mut Stats, record: bool) -> Outcome {
                 let got = std::fs::read(&path).unwrap_or_default();
                 let _ = std::fs::remove_file(&path);
                 result?;
-                if got != ref_vec {
+                // (after a failed write_all / write! the amount written is unspecified)
+                if !lk.failed_all && got != ref_vec {
                     return Err(viol(
                         "bytes-mismatch",
                         format!("file holds {:?} but the reference delivered {:?}", lossy(&got), lossy(&ref_vec)),
